@@ -10,20 +10,20 @@ variable {O : CharOracle}
 
 /-! ### Looking ahead depends on the current line only -/
 
-theorem nl_not_mem_m14 : '\n' ∉ m14 := by cdec
+theorem nl_not_mem_m13 : '\n' ∉ m13 := by cdec
 
-theorem m14_prefix_sep (a R : Str) : m14.isPrefixOf (a ++ '\n' :: R) = m14.isPrefixOf a := by
+theorem m13_prefix_sep (a R : Str) : m13.isPrefixOf (a ++ '\n' :: R) = m13.isPrefixOf a := by
   rw [Bool.eq_iff_iff, List.isPrefixOf_iff_prefix, List.isPrefixOf_iff_prefix]
   constructor
   · intro hp
-    by_cases hlen : 14 ≤ a.length
-    · exact List.prefix_of_prefix_length_le hp (List.prefix_append a _) (by simpa [m14, m13] using hlen)
+    by_cases hlen : 13 ≤ a.length
+    · exact List.prefix_of_prefix_length_le hp (List.prefix_append a _) (by simpa [m13] using hlen)
     · exfalso
       obtain ⟨t, ht⟩ := hp
       have h1 := congrArg (fun l => l[a.length]?) ht
       simp only [List.getElem?_append_right (Nat.le_refl _), Nat.sub_self, List.getElem?_cons_zero] at h1
-      rw [List.getElem?_append_left (by simp [m14, m13]; omega)] at h1
-      exact nl_not_mem_m14 (List.mem_of_getElem? h1)
+      rw [List.getElem?_append_left (by simp [m13]; omega)] at h1
+      exact nl_not_mem_m13 (List.mem_of_getElem? h1)
   · intro hp; exact hp.trans (List.prefix_append a _)
 
 theorem hintAhead_nl (R : Str) : (hintAhead O) ('\n' :: R) = (hintAhead O) R := by
@@ -34,7 +34,7 @@ the line alone. -/
 theorem hintAhead_local (s R : Str) (hR : (hintAhead O) R = false) : (hintAhead O) (s ++ '\n' :: R) = (hintAhead O) s := by
   by_cases hex : ∃ c ∈ s, (isSpacePy O) c = false
   · unfold hintAhead
-    rw [dropWhile_append_of_exists s _ hex, m14_prefix_sep]
+    rw [dropWhile_append_of_exists s _ hex, m13_prefix_sep]
   · have hall : ∀ c ∈ s, (isSpacePy O) c = true := by
       intro c hc
       cases h : (isSpacePy O) c with
@@ -361,47 +361,41 @@ theorem not_blankPy_exists (l : Str) (h : (blankPy O) l = false) : ∃ c ∈ l, 
   obtain ⟨x, hx, hs⟩ := h
   exact ⟨x, hx, by simpa using hs⟩
 
-theorem hintAhead_of_kept (l : Str) (h : (isolatedRest O) l = none) : (hintAhead O) l = false := by
+/-- A line on which every marker in sight from its beginning is followed by a space or by the end
+of the line (what the normalisation of the markers guarantees, see `prepare_spaced`). -/
+def SpacedLine (O : CharOracle) (l : Str) : Prop := (hintAhead O) l = true → (isolatedRest O) l ≠ none
+
+theorem hintAhead_of_kept (l : Str) (hs : SpacedLine O l) (h : (isolatedRest O) l = none) : (hintAhead O) l = false := by
   cases hh : (hintAhead O) l with
   | false => rfl
-  | true =>
-    exfalso
-    unfold hintAhead at hh
-    rw [List.isPrefixOf_iff_prefix] at hh
-    obtain ⟨t, ht⟩ := hh
-    have : (isolatedRest O) l = some t := by
-      simp only [isolatedRest, ← ht]
-      simp [m14, m13, List.isPrefixOf_cons_cons]
-    rw [h] at this; cases this
+  | true => exact absurd h (hs hh)
 
 /-- A kept line stays "not a hint comment alone" when the marker and tokens are appended to it. -/
-theorem hintAhead_appended (a X : Str) (ha : a ≠ []) (hm : m14.isPrefixOf a = false) (h13 : a ≠ m13)
-    (hX : SafeTail X ∨ 13 ≤ a.length) : m14.isPrefixOf (a ++ X) = false := by
+theorem hintAhead_appended (a X : Str) (ha : a ≠ []) (hm : m13.isPrefixOf a = false)
+    (hX : SafeTail X ∨ 13 ≤ a.length) : m13.isPrefixOf (a ++ X) = false := by
   rw [← Bool.not_eq_true, List.isPrefixOf_iff_prefix]
   rw [← Bool.not_eq_true, List.isPrefixOf_iff_prefix] at hm
   intro hp
-  by_cases h14 : 14 ≤ a.length
-  · exact hm (List.prefix_of_prefix_length_le hp (List.prefix_append a X) (by simpa [m14, m13] using h14))
-  · have hpre : a <+: m14 :=
-      List.prefix_of_prefix_length_le (List.prefix_append a X) hp (by simp [m14, m13]; omega)
-    have ha' : a = m14.take a.length := List.prefix_iff_eq_take.mp hpre
-    by_cases h13' : a.length = 13
-    · rw [h13'] at ha'; exact h13 (by rw [ha']; rfl)
-    · have hsafe : SafeTail X := by
-        rcases hX with h | h
-        · exact h
-        · omega
-      obtain ⟨t, ht⟩ := hp
-      have hY' : X = m14.drop a.length ++ t := by
-        have h1 : m14.take a.length ++ X = m14.take a.length ++ (m14.drop a.length ++ t) := by
-          rw [← List.append_assoc, List.take_append_drop, ← ha', ht]
-        exact List.append_cancel_left h1
-      have hpos : 0 < a.length := List.length_pos_iff.mpr ha
-      have hlt : a.length < 13 := by omega
-      generalize a.length = n at hY' hpos hlt
-      interval_cases n <;> simp [m14, m13] at hY' <;>
-        (rcases hsafe with rfl | ⟨Z, rfl⟩ | ⟨c, Z, rfl, hc⟩ <;> simp at hY' <;>
-          (try (rcases hc with rfl | rfl <;> simp at hY')))
+  by_cases h13 : 13 ≤ a.length
+  · exact hm (List.prefix_of_prefix_length_le hp (List.prefix_append a X) (by simpa [m13] using h13))
+  · have hpre : a <+: m13 :=
+      List.prefix_of_prefix_length_le (List.prefix_append a X) hp (by simp [m13]; omega)
+    have ha' : a = m13.take a.length := List.prefix_iff_eq_take.mp hpre
+    have hsafe : SafeTail X := by
+      rcases hX with h | h
+      · exact h
+      · omega
+    obtain ⟨t, ht⟩ := hp
+    have hY' : X = m13.drop a.length ++ t := by
+      have h1 : m13.take a.length ++ X = m13.take a.length ++ (m13.drop a.length ++ t) := by
+        rw [← List.append_assoc, List.take_append_drop, ← ha', ht]
+      exact List.append_cancel_left h1
+    have hpos : 0 < a.length := List.length_pos_iff.mpr ha
+    have hlt : a.length < 13 := by omega
+    generalize a.length = n at hY' hpos hlt
+    interval_cases n <;> simp [m13] at hY' <;>
+      (rcases hsafe with rfl | ⟨Z, rfl⟩ | ⟨c, Z, rfl, hc⟩ | ⟨Z, rfl⟩ <;> simp at hY' <;>
+        (try (rcases hc with rfl | rfl <;> simp at hY')))
 
 theorem dropWhile_length_ge {p : Char → Bool} (u v : Str) (hv : ∀ c, v.head? = some c → p c = false) :
     v.length ≤ ((u ++ v).dropWhile p).length := by
@@ -416,29 +410,25 @@ theorem dropWhile_length_ge {p : Char → Bool} (u v : Str) (hv : ∀ c, v.head?
     · exact ih
     · simp; omega
 
-theorem hintAhead_kept_append (l X1 toks : Str) (hk : (isolatedRest O) l = none)
+theorem hintAhead_kept_append (l X1 toks : Str) (hs : SpacedLine O l) (hk : (isolatedRest O) l = none)
     (hex : ∃ c ∈ l, (isSpacePy O) c = false)
-    (hX : (hasInfix (' ' :: m13) l = true ∧ X1 = []) ∨ (X1 = ' ' :: m13)) :
+    (hX : (hasInfix m13 l = true ∧ X1 = []) ∨ (X1 = ' ' :: m13)) :
     (hintAhead O) (l ++ (X1 ++ toks)) = false := by
-  have hah := hintAhead_of_kept l hk
+  have hah := hintAhead_of_kept l hs hk
   unfold hintAhead at hah ⊢
   rw [dropWhile_append_of_exists l _ hex]
   have hane := dropWhile_ne_nil_of_exists l hex
-  have h13 : l.dropWhile (isSpacePy O) ≠ m13 := by
-    intro e
-    have : (isolatedRest O) l = some [] := by simp [isolatedRest, e, m13]
-    rw [hk] at this; cases this
-  apply hintAhead_appended _ _ hane hah h13
+  apply hintAhead_appended _ _ hane hah
   rcases hX with ⟨hin, rfl⟩ | rfl
   · right
     rw [hasInfix_iff] at hin
     obtain ⟨pre, suf, rfl⟩ := hin
-    have := dropWhile_length_ge (p := (isSpacePy O)) (pre ++ [' ']) (m13 ++ suf)
+    have := dropWhile_length_ge (p := (isSpacePy O)) pre (m13 ++ suf)
       (by intro c hc; simp [m13] at hc; subst hc; cdec)
     simp only [List.append_assoc, List.cons_append, List.nil_append] at this ⊢
     simp only [List.length_append, m13, List.length_cons, List.length_nil] at this ⊢
     omega
-  · left; right; right
+  · left; right; right; left
     exact ⟨'#', m13.tail ++ toks, by simp [m13], Or.inr rfl⟩
 
 theorem splitNL'_noNL (s : Str) : '\n' ∉ (splitNL' s).1 ∧ ∀ l ∈ (splitNL' s).2, '\n' ∉ l := by
@@ -483,9 +473,9 @@ theorem mem_splitNL (s : Str) : ∀ l ∈ splitNL s, ∀ c ∈ l, c ∈ s := by
   · exact (mem_splitNL' s).2 l hl
 
 theorem addMarker_form (l : Str) :
-    (hasInfix (' ' :: m13) l = true ∧ addMarker l = l) ∨ addMarker l = l ++ ' ' :: m13 := by
+    (hasInfix m13 l = true ∧ addMarker l = l) ∨ addMarker l = l ++ ' ' :: m13 := by
   unfold addMarker
-  by_cases h : hasInfix (' ' :: m13) l = true
+  by_cases h : hasInfix m13 l = true
   · exact Or.inl ⟨h, by simp [h]⟩
   · exact Or.inr (by simp [h])
 
@@ -515,7 +505,7 @@ theorem closeTok_chars (t : Str) : ∀ c ∈ closeTok t, c ∈ t ∨ c = ' ' ∨
 /-- The shape of what `centrifugate_hints` returns, whatever the text: either nothing, or lines
 `l ++ X` where `l` is a line of the text that is not an isolated hint and `X` what was appended to
 it; no line is a hint comment alone; the first and the last are not blank. -/
-theorem centrifugate_structure (T c : Str) (h : (centrifugate O) T = .ok c) :
+theorem centrifugate_structure (T c : Str) (hsp : ∀ l ∈ splitNL T, SpacedLine O l) (h : (centrifugate O) T = .ok c) :
     c = [] ∨ ∃ ls : List (Str × Str), ls ≠ [] ∧ c = joinNL (ls.map fun p => p.1 ++ p.2) ∧
       (∀ p ∈ ls, (GoodLine O) p.1 p.2) ∧
       (∀ p, ls.head? = some p → ∃ c ∈ p.1, (isSpacePy O) c = false) ∧
@@ -533,7 +523,7 @@ theorem centrifugate_structure (T c : Str) (h : (centrifugate O) T = .ok c) :
   have hplain : ∀ l ∈ (trimBlank O) ((scanIsolated O) (splitNL T)).1, (GoodLine O) l [] := by
     intro l hl
     obtain ⟨_, hiso, hnl⟩ := hkept l hl
-    exact ⟨by simpa using hnl, by simpa using hintAhead_of_kept l hiso⟩
+    exact ⟨by simpa using hnl, by simpa using hintAhead_of_kept l (hsp l (hkept l hl).1) hiso⟩
   generalize hK : (trimBlank O) ((scanIsolated O) (splitNL T)).1 = K at h hkept hplain
   have hhead' : ∀ l, K.head? = some l → ∃ c ∈ l, (isSpacePy O) c = false := by
     intro l hl; rw [← hK] at hl; exact not_blankPy_exists l (hhead l hl)
@@ -572,10 +562,10 @@ theorem centrifugate_structure (T c : Str) (h : (centrifugate O) T = .ok c) :
       obtain ⟨_, hiso, hnl⟩ := hkept l hl
       rcases addMarker_form l with ⟨hin, hid⟩ | hadd
       · refine ⟨[] ++ toks, by rw [hid]; simp, ⟨by simp [hnl, htoks], ?_⟩⟩
-        exact hintAhead_kept_append l [] toks hiso hex (Or.inl ⟨hin, rfl⟩)
+        exact hintAhead_kept_append l [] toks (hsp l (hkept l hl).1) hiso hex (Or.inl ⟨hin, rfl⟩)
       · refine ⟨(' ' :: m13) ++ toks, by rw [hadd]; simp, ⟨?_, ?_⟩⟩
         · simp only [List.mem_append, not_or]; exact ⟨hnl, by simp [m13], htoks⟩
-        · exact hintAhead_kept_append l (' ' :: m13) toks hiso hex (Or.inr rfl)
+        · exact hintAhead_kept_append l (' ' :: m13) toks (hsp l (hkept l hl).1) hiso hex (Or.inr rfl)
     cases hKe : K with
     | nil => simp [hKe] at h
     | cons l0 t =>
@@ -698,9 +688,9 @@ theorem trimEnds_sublist (s : Str) : ∀ c ∈ (trimEnds O) s, c ∈ s := by
   · exact (List.dropWhile_sublist _).subset h
 
 /-- **Every text**: the stored source has as many lines as the text the hints were numbered on. -/
-theorem lineCount_stored (T c : Str) (hc : (centrifugate O) T = .ok c) :
+theorem lineCount_stored (T c : Str) (hsp : ∀ l ∈ splitNL T, SpacedLine O l) (hc : (centrifugate O) T = .ok c) :
     lineCount ((removeHints O) c) = lineCount c := by
-  rcases centrifugate_structure _ c hc with rfl | ⟨ls, hne, rfl, hgood, hfirst, hlast, _⟩
+  rcases centrifugate_structure _ c hsp hc with rfl | ⟨ls, hne, rfl, hgood, hfirst, hlast, _⟩
   · rfl
   · exact lineCount_removeHints ls hne hgood hfirst hlast
 
